@@ -22,6 +22,7 @@ import (
 	"fmt"
 	"os"
 	"sort"
+	"strings"
 )
 
 // LicenseType is the assumed type of the unknown license.
@@ -89,17 +90,25 @@ func readFileLines(filename string, startLine, endLine int) (string, error) {
 	}
 	defer f.Close()
 
-	scanner := bufio.NewScanner(f)
+	reader := bufio.NewReader(f)
 	lines := ""
 	i := 0
-	for scanner.Scan() {
-		i++ // lines are 1-indexed
-		if i < startLine {
-			continue
-		} else if i > endLine {
+	for {
+		// Read whole lines regardless of their length.
+		line, err := reader.ReadString('\n')
+		if err != nil && line == "" {
 			break
 		}
-		lines += scanner.Text() + "\n"
+		i++ // lines are 1-indexed
+		if i > endLine {
+			break
+		}
+		if i >= startLine {
+			lines += strings.TrimSuffix(strings.TrimSuffix(line, "\n"), "\r") + "\n"
+		}
+		if err != nil {
+			break
+		}
 	}
 	if i < endLine {
 		return "", fmt.Errorf(
